@@ -11,7 +11,7 @@ GNext ==
      \/ \E s \in Streams : Answer(s) /\ H([a |-> "Answer", s |-> s])
      \/ \E s \in Streams : StreamFailed(s) /\ H([a |-> "StreamFailed", s |-> s])
      \/ \E s \in Streams : LateClosed(s) /\ H([a |-> "LateClosed", s |-> s])
-     \/ \E a \in {"A", "B", "P", "none"} : SetAttacher(a) /\ H([a |-> "SetAttacher", who |-> a])
+     \/ \E a \in {"A", "B", "P", "none"}, late \in BOOLEAN : SetAttacher(a, late) /\ H([a |-> "SetAttacher", who |-> a, late |-> late])
      \/ \E k \in Conns, c \in Circs, late \in BOOLEAN : ViaConnect(k, c, late) /\ H([a |-> "ViaConnect", k |-> k, c |-> c, late |-> late])
      \/ ConfAck /\ H([a |-> "ConfAck"])
      \/ \E k \in Conns, p \in Ports : ViaAddr(k, p) /\ H([a |-> "ViaAddr", k |-> k, p |-> p])
